@@ -22,8 +22,9 @@ warnings.filterwarnings("ignore")
 
 PID = "C05"
 TITLE = "An analysis gives the same result whether it is driven by run or by fill"
-LEAN_MODULES = ["LenaModel.Props.C05"]
+LEAN_MODULES = ["LenaModel.Props.C05", "LenaModel.Props.C05Sel"]
 LEAN_SOURCES = ["LenaModel/Model/C17.lean", "LenaModel/Model/Flow.lean", "LenaModel/Model/C05.lean",
+                "LenaModel/Model/C05Sel.lean", "LenaModel/Props/C05Sel.lean",
                 "LenaModel/Lemmas/C05.lean", "LenaModel/Props/C05.lean", "LenaModel/Lemmas/C17.lean",
                 "LenaModel/Props/C17.lean"]
 DRIVER = "drivers/C05.lean"
@@ -31,6 +32,13 @@ THEOREMS = [
     # driver-consistency of each pre-processing element kind (sentence 1, per element)
     "Lena.C05.call_consistent",
     "Lena.C05.filter_consistent",
+    # ... for a Filter built from a selector of every form (Selector / Or / And / Not, raise_on_error at any level)
+    "Lena.C05.selFilter_consistent",
+    "Lena.C05.selFilter_stage_agree",
+    "Lena.C05.selector_roe_false_total",
+    "Lena.C05.not_roe_false_total",
+    "Lena.C05.filter_roe_false_total",
+    "Lena.C05.selector_roe_true",
     "Lena.C05.runif_consistent",
     "Lena.C05.slice_consistent",
     "Lena.C05.slice_consistent_pyslice",
@@ -189,7 +197,10 @@ ASSUMPTIONS = [
     "(sel_value, from the documentation of Selector: an exception means 'not selected' iff raise_on_error is false; the "
     "raise_on_error of a container reaches its raw items only) serves PreSafe alone. The Lean model knows predicates as "
     "total functions Value -> Except Exc Bool (Filter.fill_into / run over ANY such function: filter_consistent); the "
-    "Selector layer (conversion of containers, raise_on_error) is not transcribed: Filters with a `sel` are ORACLE ONLY",
+    "Selector layer (Selector.__init__/__call__, Or, And, Not: conversion of containers, raise_on_error) is transcribed in "
+    "Model/C05Sel.lean (SelArg.evalFilter) and compared with the real Filter at the element level (op stage: fill_into "
+    "value by value and run, also with an input that raises); inside chains / Splits Filters with a `sel` are ORACLE ONLY "
+    "(the Spec vocabulary of Model/C05.lean is left unchanged)",
     "FillRequest and FillRequestSeq as such belong to C16; FillSeq "
     "filled value by value has no model of its own: fillRun stands for FillComputeSeq and for FillSeq+compute+Sequence(post), "
     "both real variants are compared with it",
@@ -1594,6 +1605,9 @@ def _case_specs(case):
 
 def model_requests(case):
     op = case["op"]
+    if op == "stage" and case["el"]["k"] == "filter" and "sel" in case["el"]:
+        # the Selector layer is modelled at the element level (Model/C05Sel.lean: driveStageObj (selFilterObj x))
+        return [{"op": "stage", "el": case["el"], "flow": case["flow"], "term": case.get("term")}]
     if oracle_only(_case_specs(case)):
         return []
     if op == "caps":
@@ -1882,6 +1896,8 @@ def oracle(case, res):
         spec = case["el"]
         if "e" in res or not pre_in_scope([spec]) or spec.get("bad"):
             return None
+        if spec["k"] == "runif" and not stateless_list(spec["inner"]):
+            return None         # a RunIf whose inner sequence keeps state between its one-value runs (ASSUMPTIONS)
         f, r = res["fill"], res["run"]
         what = f"element {spec} flow {case['flow']} term {case.get('term')}"
         if spec["k"] == "slice":
